@@ -360,7 +360,10 @@ def main(argv=None):
                   (prop_id, k, known[k].get("what", ""), known_hits.get(k, 0)))
 
         replays = []
-        budget = 120 if tier == "quick" else 600
+        # total shrink budget is shared between the finding keys so that a tree with many
+        # simultaneous violations still reports within the tier's time frame
+        total = 160 if tier == "quick" else 900
+        budget = max(12, total // max(1, len(unknown)))
         for k in sorted(unknown):
             size, case, detail = unknown[k]["cases"][0]
             small, sdetail = case, detail
